@@ -402,6 +402,37 @@ func (p *c01) RunCase(ctx *runner.Ctx) runner.CaseResult {
 				expr := u.Render(names, refmodel.RenderOpts{})
 				op = adapt.Op{Kind: adapt.OpUpdate, Table: spec.Name, Key: k, Update: expr, UpdAST: u, Names: names,
 					Values: val.Item{":m": val.Map(map[string]val.V{"mode": val.Str(fmt.Sprint("nested", i))}), ":s": val.Str(fmt.Sprint("flat", i))}}
+			} else if r.Intn(5) == 0 {
+				// a shopping-cart document: written whole, or edited three and four steps down (a quantity inside the first
+				// line, a note removed from it, a flag deep inside the meta data) - refused when the cart is not there
+				pp := func(els ...interface{}) refmodel.Path {
+					p := refmodel.Path{}
+					for _, e := range els {
+						if n, ok := e.(int); ok {
+							p = append(p, refmodel.PathEl{IsIdx: true, Idx: n})
+						} else {
+							p = append(p, refmodel.PathEl{Name: e.(string)})
+						}
+					}
+					return p
+				}
+				var u *refmodel.Update
+				values := val.Item{":q": val.Num(fmt.Sprint(i))}
+				switch r.Intn(5) {
+				case 0, 1:
+					u = &refmodel.Update{Actions: []refmodel.Action{{Kind: "SET", Path: pp("cart"), RHS: &refmodel.UExpr{Kind: "val", Val: ":doc"}}}}
+					values = val.Item{":doc": val.Map(map[string]val.V{
+						"items": val.List(val.Map(map[string]val.V{"qty": val.Num("1"), "note": val.Str("gift")}), val.Map(map[string]val.V{"qty": val.Num("2")})),
+						"meta":  val.Map(map[string]val.V{"a": val.Map(map[string]val.V{"b": val.Map(map[string]val.V{"c": val.Num("0")}), "c": val.Map(map[string]val.V{"b": val.Num("9")})})})})}
+				case 2:
+					u = &refmodel.Update{Actions: []refmodel.Action{{Kind: "SET", Path: pp("cart", "items", 0, "qty"), RHS: &refmodel.UExpr{Kind: "val", Val: ":q"}}}}
+				case 3:
+					u = &refmodel.Update{Actions: []refmodel.Action{{Kind: "REMOVE", Path: pp("cart", "items", 0, "note")}, {Kind: "SET", Path: pp("cart", "items", 1, "qty"), RHS: &refmodel.UExpr{Kind: "val", Val: ":q"}}}}
+				default:
+					u = &refmodel.Update{Actions: []refmodel.Action{{Kind: "SET", Path: pp("cart", "meta", "a", "b", "c"), RHS: &refmodel.UExpr{Kind: "val", Val: ":q"}}}}
+				}
+				op = adapt.Op{Kind: adapt.OpUpdate, Table: spec.Name, Key: k, Update: u.Render(map[string]string{}, refmodel.RenderOpts{}), UpdAST: u, Values: values}
+				x.r.Counters["cart_document_updates"]++
 			} else if r.Intn(4) == 0 {
 				// edit the list the other updates grow: drop an element and overwrite (or append) another one in ONE
 				// request, clauses in either order - every index refers to the list as it was before the request
